@@ -118,4 +118,238 @@ theorem roundHalfEven_near (r : Rat) (z : Int) (h : |r - (z : Rat)| < 1 / 2) : r
   have h2' : -1 < roundHalfEven r - z := by exact_mod_cast h2
   omega
 
+
+/-! ### exporter arithmetic -/
+
+theorem encOffset_eq (divs den : Nat) (rel : Int) :
+    encOffset divs den rel =
+      ((rel * (den : Int) - encBeat divs den rel * (4 * (divs : Int)) : Int) : Rat) / ((4 * divs * den : Nat) : Rat) := by
+  unfold encOffset
+  rw [Rat.mkRat_eq_div]
+
+/-- beat (in beats of type `den`) plus offset (in whole notes) is the distance from the bar line in quarters -/
+theorem enc_position (divs den : Nat) (hd : 0 < divs) (hn : 0 < den) (rel : Int) :
+    ((encBeat divs den rel : Int) : Rat) * 4 / (den : Rat) + 4 * encOffset divs den rel = (rel : Rat) / (divs : Rat) := by
+  rw [encOffset_eq]
+  have h1 : ((divs : Nat) : Rat) ≠ 0 := by exact_mod_cast (Nat.pos_iff_ne_zero.mp hd)
+  have h2 : ((den : Nat) : Rat) ≠ 0 := by exact_mod_cast (Nat.pos_iff_ne_zero.mp hn)
+  push_cast
+  field_simp
+  ring
+
+/-- the offset is a non-negative fraction of one beat -/
+theorem enc_offset_range (divs den : Nat) (hd : 0 < divs) (hn : 0 < den) (rel : Int) :
+    0 ≤ encOffset divs den rel ∧ encOffset divs den rel < 1 / (den : Rat) := by
+  rw [encOffset_eq]
+  have hpos : (0 : Int) < 4 * (divs : Int) := by omega
+  have hmod : rel * (den : Int) - encBeat divs den rel * (4 * (divs : Int)) = (rel * (den : Int)) % (4 * (divs : Int)) := by
+    unfold encBeat
+    have := Int.emod_add_mul_ediv (rel * (den : Int)) (4 * (divs : Int))
+    linarith [Int.mul_comm ((rel * (den : Int)) / (4 * (divs : Int))) (4 * (divs : Int))]
+  rw [hmod]
+  have h0 : 0 ≤ (rel * (den : Int)) % (4 * (divs : Int)) := Int.emod_nonneg _ (by omega)
+  have h1 : (rel * (den : Int)) % (4 * (divs : Int)) < 4 * (divs : Int) := Int.emod_lt_of_pos _ hpos
+  have hD : (0 : Rat) < ((4 * divs * den : Nat) : Rat) := by
+    have : 0 < 4 * divs * den := by positivity
+    exact_mod_cast this
+  have hden : (0 : Rat) < (den : Rat) := by exact_mod_cast hn
+  constructor
+  · apply div_nonneg
+    · exact_mod_cast h0
+    · exact le_of_lt hD
+  · rw [div_lt_div_iff₀ hD hden]
+    have h1' : (((rel * (den : Int)) % (4 * (divs : Int)) : Int) : Rat) < ((4 * (divs : Int) : Int) : Rat) := by exact_mod_cast h1
+    push_cast at h1' ⊢
+    nlinarith
+
+/-- the beat is the number of whole beats before the note (0-based) when the note is inside the measure -/
+theorem encBeat_nonneg (divs den : Nat) (hd : 0 < divs) (rel : Int) (hr : 0 ≤ rel) : 0 ≤ encBeat divs den rel := by
+  unfold encBeat
+  apply Int.ediv_nonneg
+  · positivity
+  · omega
+
+/-! ### fractions as the file holds them -/
+
+theorem Frac.ofRat_val (r : Rat) (h : 0 ≤ r) : (Frac.ofRat r).val = r := by
+  unfold Frac.ofRat Frac.val
+  have hn : 0 ≤ r.num := Rat.num_nonneg.mpr h
+  have : ((r.num.toNat : Nat) : Rat) = (r.num : Rat) := by
+    have := Int.toNat_of_nonneg hn
+    exact_mod_cast this
+  simp only [this, Nat.cast_one, mul_one]
+  exact Rat.num_div_den r
+
+theorem truncRat_int (z : Int) (h : 0 ≤ z) : truncRat (z : Rat) = z := by
+  unfold truncRat
+  have : (0 : Rat) ≤ (z : Rat) := by exact_mod_cast h
+  simp [this, Rat.floor_intCast]
+
+theorem encDur_eq (divs : Nat) (d : Int) : encDur divs d = (d : Rat) / ((4 * divs : Nat) : Rat) := by
+  unfold encDur; rw [Rat.mkRat_eq_div]
+
+/-! ### divisions: lcm of the denominators -/
+
+theorem foldl_lcm_dvd (l : List Nat) : ∀ init : Nat, init ∣ l.foldl Nat.lcm init ∧ ∀ a ∈ l, a ∣ l.foldl Nat.lcm init := by
+  induction l with
+  | nil => intro init; simp
+  | cons x rest ih =>
+    intro init
+    simp only [List.foldl_cons, List.mem_cons]
+    obtain ⟨h1, h2⟩ := ih (Nat.lcm init x)
+    refine ⟨(Nat.dvd_lcm_left init x).trans h1, ?_⟩
+    rintro a (rfl | ha)
+    · exact (Nat.dvd_lcm_right init a).trans h1
+    · exact h2 a ha
+
+theorem dvd_natLcm {l : List Nat} {a : Nat} (h : a ∈ l) : a ∣ natLcm l := (foldl_lcm_dvd l 1).2 a h
+
+theorem natLcm_pos {l : List Nat} (h : ∀ a ∈ l, 0 < a) : 0 < natLcm l := by
+  unfold natLcm
+  suffices ∀ init, 0 < init → 0 < l.foldl Nat.lcm init from this 1 (by decide)
+  induction l with
+  | nil => intro init hi; simpa
+  | cons x rest ih =>
+    intro init hi
+    simp only [List.foldl_cons]
+    exact ih (fun a ha => h a (by simp [ha])) _ (Nat.lcm_pos hi (h x (by simp)))
+
+/-! ### four-decimal beat times -/
+
+theorem dec4_close (x : Rat) : |dec4 x - x| ≤ 1 / 20000 := by
+  unfold dec4
+  have h := Round.roundHalfEven_close (x * 10000)
+  rw [abs_le] at h ⊢
+  constructor <;> linarith
+
+
+/-! ### one beat type throughout: both beat maps are linear -/
+
+theorem rawBeats_uniform (divs den0 : Nat) (ts : List TSig) (s : TSig) (h : ∀ x ∈ s :: ts, x.den = den0) (t : Int) :
+    rawBeats divs (s :: ts) t = ((t - s.t : Int) : Rat) * (den0 : Rat) / (4 * (divs : Rat)) := by
+  induction ts generalizing s with
+  | nil => simp [rawBeats, h s (by simp)]
+  | cons s' rest ih =>
+    unfold rawBeats
+    have hs : s.den = den0 := h s (by simp)
+    have ih' := ih s' (fun x hx => h x (by simp at hx ⊢; right; exact hx))
+    split
+    · rw [hs]
+    · rw [ih', hs]
+      push_cast
+      ring
+
+theorem mem_of_getLast? {α : Type} {l : List α} {a : α} (h : l.getLast? = some a) : a ∈ l :=
+  List.mem_of_getLast? h
+
+theorem tsQuarters_uniform (den0 : Nat) : ∀ (ts : List TSLine) (q0 : Rat), (∀ x ∈ ts, x.den = den0) →
+    (∀ a rest, ts = a :: rest → q0 = a.timeB * 4 / (den0 : Rat)) →
+    ∀ p ∈ tsQuarters ts q0, p.2 = p.1.timeB * 4 / (den0 : Rat) := by
+  intro ts
+  induction ts with
+  | nil => intro q0 _ _ p hp; simp [tsQuarters] at hp
+  | cons a rest ih =>
+    intro q0 h hq0 p hp
+    have hq : q0 = a.timeB * 4 / (den0 : Rat) := hq0 a rest rfl
+    cases rest with
+    | nil =>
+      simp [tsQuarters] at hp
+      rw [hp]; exact hq
+    | cons b rest' =>
+      unfold tsQuarters at hp
+      simp only [List.mem_cons] at hp
+      rcases hp with rfl | hp
+      · exact hq
+      · have ha : a.den = den0 := h a (by simp)
+        refine ih _ (fun x hx => h x (by simp at hx ⊢; right; exact hx)) ?_ p hp
+        intro a' r hr
+        have hb : a' = b := (List.cons.inj hr).1.symm
+        rw [hb, hq, ha]
+        by_cases hz : (den0 : Rat) = 0
+        · simp [hz]
+        · field_simp
+          ring
+
+/-- with one beat type the importer's beats→quarters map is `b ↦ 4b/den` whatever the changes of beat count -/
+theorem beatsToQuarters_uniform (den0 : Nat) (ts : List TSLine) (h : ∀ x ∈ ts, x.den = den0) (hne : ts ≠ [])
+    (b : Rat) : beatsToQuarters ts b = b * 4 / (den0 : Rat) := by
+  cases ts with
+  | nil => exact absurd rfl hne
+  | cons s rest =>
+    have hs : s.den = den0 := h s (by simp)
+    unfold beatsToQuarters
+    simp only
+    have hinv := tsQuarters_uniform den0 (s :: rest) (s.timeB * 4 / (s.den : Rat)) h
+      (fun a r hr => by rw [(List.cons.inj hr).1, ← (List.cons.inj hr).1, hs])
+    split
+    · rename_i x q hlast
+      have hmem : (x, q) ∈ tsQuarters (s :: rest) (s.timeB * 4 / (s.den : Rat)) :=
+        (List.mem_filter.mp (List.mem_of_getLast? hlast)).1
+      have hq := hinv (x, q) hmem
+      have hx : x.den = den0 := by
+        have : ∀ p ∈ tsQuarters (s :: rest) (s.timeB * 4 / (s.den : Rat)), p.1 ∈ s :: rest := by
+          intro p hp
+          clear hinv hlast hmem hq
+          generalize (s.timeB * 4 / (s.den : Rat)) = q0 at hp
+          induction rest generalizing s q0 with
+          | nil => simp [tsQuarters] at hp; simp [hp]
+          | cons b r ih =>
+            unfold tsQuarters at hp
+            simp only [List.mem_cons] at hp
+            rcases hp with rfl | hp
+            · simp
+            · have := ih b (fun x hx => h x (by simp at hx ⊢; right; exact hx)) (by simp) (h b (by simp)) _ hp
+              simp at this ⊢
+              right; exact this
+        exact h x (this (x, q) hmem)
+      simp only at hq
+      rw [hq, hx]
+      ring
+    · rw [hs]; ring
+
+theorem denAtBeats_uniform (den0 : Nat) (ts : List TSLine) (h : ∀ x ∈ ts, x.den = den0) (hne : ts ≠ [])
+    (maxTime b : Rat) : denAtBeats ts maxTime b = den0 := by
+  cases ts with
+  | nil => exact absurd rfl hne
+  | cons s rest =>
+    unfold denAtBeats
+    simp only
+    split
+    · rename_i p hlast
+      have hmem := (List.mem_filter.mp (List.mem_of_getLast? hlast)).1
+      have hperm : ∀ (l : List (Rat × Nat)) (le : (Rat × Nat) → (Rat × Nat) → Bool) (x : Rat × Nat),
+          x ∈ sortBy le l → x ∈ l := by
+        intro l le
+        induction l with
+        | nil => intro x hx; simpa [sortBy] using hx
+        | cons a r ih =>
+          intro x hx
+          unfold sortBy at hx
+          have hins : ∀ (l' : List (Rat × Nat)) (y : Rat × Nat), y ∈ insertBy le a l' → y = a ∨ y ∈ l' := by
+            intro l'
+            induction l' with
+            | nil => intro y hy; simp [insertBy] at hy; exact Or.inl hy
+            | cons c r' ih' =>
+              intro y hy
+              unfold insertBy at hy
+              split at hy
+              · simp at hy ⊢; tauto
+              · simp at hy ⊢
+                rcases hy with rfl | hy
+                · tauto
+                · rcases ih' y hy with h1 | h1 <;> tauto
+          rcases hins _ x hx with rfl | h2
+          · simp
+          · simp; right; exact ih x h2
+      have := hperm _ _ p hmem
+      simp only [List.mem_append, List.mem_map, List.mem_singleton] at this
+      rcases this with ⟨x, hx, rfl⟩ | rfl
+      · exact h x hx
+      · have : ((s :: rest).getLast?.getD s) ∈ s :: rest := by
+          cases hl : (s :: rest).getLast? with
+          | none => simp
+          | some y => simp; have := List.mem_of_getLast? hl; simpa using this
+        exact h _ this
+    · exact h s (by simp)
+
 end C08P
